@@ -39,6 +39,39 @@ DISPATCH = 'forml.runtime._service.dispatch'
 SERVICE = 'forml.runtime._service'
 
 
+def pool_size(ctx) -> None:
+    """Every configured pool size serves: ``Pool.run`` forks exactly ``self._processes`` workers - the count of the range that
+    drives the worker construction is the configured number (``range(n)`` or ``range(a, n + a)``), so a pool of one has its
+    one worker (``while all(alive for w in [])`` is vacuously true: a pool without workers hangs every caller silently)."""
+    prog = ctx.prog
+    fn = prog.func(f'{PRED}:Pool.run')
+    inl = fn
+    makers = [c for c in core.walk_local(inl.node) if isinstance(c, ast.Call) and (core.call_tail(c) == 'Worker')]
+    ranges = []
+    for c in makers:
+        for a in core.ancestors(c):
+            if isinstance(a, (ast.ListComp, ast.GeneratorExp, ast.SetComp)):
+                ranges += [g.iter for g in a.generators]
+            elif isinstance(a, (ast.For,)):
+                ranges.append(a.iter)
+            if a is inl.node:
+                break
+    ctx.floor('C16.pool-size', len(makers), 1)
+
+    def count_ok(r: ast.AST) -> bool:
+        if not (isinstance(r, ast.Call) and isinstance(r.func, ast.Name) and r.func.id == 'range' and not r.keywords):
+            return False
+        n = 'self._processes'
+        if len(r.args) == 1:
+            return core.src(r.args[0]) == n
+        if len(r.args) == 2 and isinstance(r.args[0], ast.Constant) and isinstance(r.args[0].value, int):
+            a = r.args[0].value
+            return core.src(r.args[1]) in (f'{n} + {a}', f'{a} + {n}') or (a == 0 and core.src(r.args[1]) == n)
+        return False
+
+    ctx.check(len(ranges) == 1 and count_ok(ranges[0]), 'C16.pool-size', fn, f'the pool forks exactly self._processes workers (driven by `{core.src(ranges[0]) if ranges else "?"}`)', ranges[0] if ranges else fn.node, key='pool:size')
+
+
 def worker_loop(ctx) -> None:
     prog = ctx.prog
     fn = prog.func(f'{PRED}:Pool.Worker.run')
@@ -346,6 +379,7 @@ def descriptor_cache(ctx) -> None:
 
 
 def run(ctx) -> None:
+    pool_size(ctx)
     # nothing is computed from a loop variable after its loop ran to completion (it would be the last element's value)
     shared.r_staleloop(ctx, ctx.prog.functions([m for m in ctx.prog.modules if m.startswith(('forml.runtime._service',))]))
     request_state(ctx)
